@@ -815,6 +815,52 @@ def cut_spec_ties(rec, psi_cut, d, L, tag):
                   tol, where)
 
 
+
+def run_schmidt_big(inp):
+    """a cut with more Schmidt coefficients than the fixed length of the reported spectrum (500): an 18-qubit full-bond state,
+    cut (8, 9) has 512 of them — the report must be the LARGEST 500, and the entropy that of all 512"""
+    L, i = 18, 8
+    nprng = np.random.default_rng(inp["sub"])
+    dims = [min(2 ** k, 2 ** (L - k)) for k in range(L + 1)]
+    ts = [nprng.normal(size=(2, dims[k], dims[k + 1])) + 1j * nprng.normal(size=(2, dims[k], dims[k + 1])) for k in range(L)]
+    # give the spectrum of the middle cut a wide, strictly decreasing profile (otherwise a random state's 512 values are nearly flat)
+    mps = MPS(L, tensors=ts, physical_dimensions=[2] * L)
+    mps.normalize("B")
+    for k in range(i):
+        mps.shift_orthogonality_center_right(k)
+    a = mps.tensors[i]
+    a = a * np.geomspace(1.0, 1e-3, a.shape[2])[None, None, :]
+    mps.tensors[i] = a
+    mps.normalize("B")
+    v = copy.deepcopy(mps).to_vec()
+    sv = np.linalg.svd(dense_cut(v, L, 2, i), compute_uv=False)
+    probs = []
+    got_s, got_e = np.array([np.nan]), float("nan")
+    for which in ("sch", "ent"):   # through the observable path (which first walks the centre onto the cut)
+        params = StrongSimParams([make_obs({"k": which, "site": i})], show_progress=False)
+        res = np.empty((1, 1), dtype=object)
+        try:
+            copy.deepcopy(mps).evaluate_observables(params, res, 0)
+            if which == "sch":
+                got_s = np.asarray(res[0, 0], dtype=float).ravel()
+            else:
+                got_e = float(res[0, 0])
+        except Exception as e:  # noqa: BLE001
+            probs.append(f"evaluate_observables({which}) raised {type(e).__name__}: {e}")
+    n = len(got_s)
+    want = sv[:n]
+    fin = ~np.isnan(got_s)
+    if fin.sum() != min(n, len(sv)):
+        probs.append(f"{int(fin.sum())} reported Schmidt values for a cut with {len(sv)} (fixed length {n})")
+    else:
+        dev = float(np.max(np.abs(got_s[fin] - want[:fin.sum()])))
+        if dev > 1e-9:
+            probs.append(f"reported spectrum starts {got_s[:3]}, the {n} largest Schmidt values of the dense vector start {want[:3]} (deviation {dev:.2e})")
+    if abs(got_e - dense_entropy(sv)) > 1e-9:
+        probs.append(f"entropy {got_e!r} vs dense {dense_entropy(sv)!r}")
+    return {"req": None, "impl": None, "kind": "schmidt-big", "sig": "schmidt-big", "nontrivial": True,
+            "oracle": {"ok": not probs, "detail": "; ".join(probs)[:600] or f"cut (8,9) of 18 qubits: {len(sv)} Schmidt values, the largest {n} reported"}}
+
 def run_schmidt_cut(inp):
     L, d = inp["L"], inp.get("d", 2)
     rng = random.Random(inp["sub"] ^ 0x5C11)
@@ -1019,6 +1065,7 @@ def gen(rng, tier):
     n_run = {"quick": 5, "thorough": 30, "search": 10}.get(tier, 5)
     n_st = {"quick": 14, "thorough": 60, "search": 12}.get(tier, 8)
     yield {"kind": "d29"}
+    yield {"kind": "schmidt-big", "sub": 18}   # one cut with more Schmidt values (512) than the reported spectrum holds (500)
     yield from gen_schmidt(rng, tier)          # extension: Schmidt data of a cut
     for _ in range(n_eval):
         L = rng.choice([2, 3, 4, 5])
@@ -1046,7 +1093,7 @@ def gen(rng, tier):
 def run(inp):
     k = inp["kind"]
     res = {"evalobs": run_evalobs, "walkraw": run_walkraw, "values": run_values, "run-strong": run_strong, "run-analog": run_analog,
-           "stitch": run_stitch, "d29": run_d29, "schmidt-cut": run_schmidt_cut, "run-entropy": run_entropy_run}[k](inp)
+           "stitch": run_stitch, "d29": run_d29, "schmidt-cut": run_schmidt_cut, "run-entropy": run_entropy_run, "schmidt-big": run_schmidt_big}[k](inp)
     res = res if isinstance(res, list) else [res]
     for r in res:
         if inp.get("corpus_file"):
